@@ -1,7 +1,113 @@
-//! C33 — not built yet.
-use lv_common::Ctx;
+//! C33 — Data sampling marks a block sampled only after full success.
+//!
+//! The real `Daser` runs over a mocked `P2p` (`DaserSim`), a recording wrapper around `InMemoryStore`
+//! and its event channel, on a paused `current_thread` tokio runtime. Chains carry real extended
+//! squares (EDS width 2..64), honest answers are real `Sample` blocks, timeouts elapse on the virtual
+//! clock. Schedules are proptest recipes (see `daser_sim.rs`).
+use lv_common::prelude::*;
 
-pub fn run(_ctx: &mut Ctx) {
-    eprintln!("C33: check not built yet");
-    std::process::exit(2);
+use crate::daser_sim::{DaserRecipe, Mode, dstep_strategy, run_daser_scenario, width_strategy};
+use crate::pruner_sim::{Inconclusives, SimErr};
+
+fn schedule_strategy(max_blocks: usize, max_steps: usize) -> impl Strategy<Value = DaserRecipe> {
+    (
+        (any::<u64>(), 6u8..=48, 1u8..=4, 0u8..=3, 0u8..=4),
+        prop::collection::vec(width_strategy(true), 10..=max_blocks),
+        prop::collection::vec((0u8..3, 1u8..14), 1..=4),
+        prop_oneof![3 => Just(0u8), 1 => 0u8..40],
+        prop_oneof![5 => Just(true), 1 => Just(false)],
+        prop::collection::vec(dstep_strategy(4, 1, 1, 1), 5..=max_steps),
+    )
+        .prop_map(|((seed, sw_h, limit, allowance, n_old), widths, layout, pre_sampled_pct, connect_first, steps)| DaserRecipe {
+            seed,
+            sw_h,
+            limit,
+            allowance,
+            n_old,
+            widths,
+            layout,
+            pre_sampled_pct,
+            connect_first,
+            steps,
+        })
+}
+
+/// many blocks of one width above 4, everything answered: judges that the random choice of shares can
+/// reach every row and column of the square
+fn spread_strategy() -> impl Strategy<Value = DaserRecipe> {
+    (any::<u64>(), prop_oneof![3 => Just(2u8), 1 => Just(3u8)], 3u8..=4).prop_map(|(seed, l, limit)| {
+        let n = if l == 2 { 30 } else { 64 };
+        DaserRecipe {
+            seed,
+            sw_h: 24,
+            limit,
+            allowance: 0,
+            n_old: 0,
+            widths: vec![l; n],
+            layout: vec![(0, n as u8)],
+            pre_sampled_pct: 0,
+            connect_first: true,
+            steps: (0..n + 4).map(|_| crate::daser_sim::DStep::AnswerBlock { sel: 0 }).collect(),
+        }
+    })
+}
+
+fn judge(r: &DaserRecipe, obs: &mut Obs, inc: &Inconclusives) -> Result<(), Failure> {
+    match run_daser_scenario(r, Mode { c33: true, ..Mode::default() }, obs) {
+        Ok(()) => Ok(()),
+        Err(SimErr::Fail(f)) => Err(f),
+        Err(SimErr::Inconclusive(why)) => {
+            inc.record(why);
+            obs.label("scenario-not-judged");
+            Ok(())
+        }
+    }
+}
+
+pub fn run(ctx: &mut Ctx) {
+    ctx.assume("the mocked P2p answers GetShwapCid either with the honest Sample block of the header's real EDS or not at all (timeout) / with RequestTimedOut: verification of a delivered block against the DAH happens inside bitswap (ShwapMultihasher, property C10), not in the daser");
+    ctx.assume("header times are placed relative to the wall clock with margins of >= 1 hour around the sampling-window cutoff, which dwarfs the run time of a scenario");
+    ctx.assume("observations are taken at settled points of a current_thread tokio runtime with a paused clock (yield until 12 consecutive yields show no request, event or store call); the share choice uses thread_rng and select! order is random inside the daser, the oracle must hold for every such choice");
+    ctx.assume("CIDs are compared through celestia-types SampleId <-> CID conversion (property C15)");
+    ctx.essential(&[
+        "marked-sampled-verified",
+        "timeout-block-not-marked",
+        "metadata-checked-at-first-request",
+        "request-timed-out-on-the-virtual-clock",
+        "answered-with-timeout-error",
+        "schedule-with-interleaved-answers",
+        "width-2",
+        "width-4",
+        "width-8",
+        "width-16",
+        "width-32",
+        "width-64",
+        "resampled-height",
+        "disconnect-cancelled-attempt",
+        "prune-granted",
+        "index-spread-judged",
+    ]);
+    ctx.set_shrink_iters(400);
+    let inc = Inconclusives::default();
+    let (cases, max_blocks, max_steps) = match ctx.tier {
+        Tier::Quick => (150u32, 40usize, 60usize),
+        Tier::Thorough => (2500, 60, 120),
+    };
+    ctx.proptest(
+        "daser-schedules",
+        "a schedule = chain of 10..60 recent headers over real squares (EDS width 2..64) + daser limits + steps (insert head/historical headers, answer pending GetShwapCid honestly per block or singly, fail one, advance the virtual clock, prune via want_to_prune+remove_height, pruner reports, disconnect/reconnect/flap); one evaluation per SamplingStarted judged, per first-request metadata check, per mark_as_sampled judged and per timed-out sampling shown unmarked; non-trivial iff the schedule contains at least one timed-out share or answers interleaved across blocks; distinct by (schedule digest, evaluation index)",
+        cases,
+        move || schedule_strategy(max_blocks, max_steps),
+        |r, obs| judge(r, obs, &inc),
+    );
+    inc.report(ctx, "daser-schedules");
+    let inc2 = Inconclusives::default();
+    ctx.proptest(
+        "index-spread",
+        "30 blocks of EDS width 8 (or 64 of width 16), all sampled to completion: every row and every column index must be used by some chosen share once the probability of missing one under a uniform choice is below 1e-12; non-trivial never (supporting check)",
+        ctx.tier.pick(12, 96),
+        spread_strategy,
+        |r, obs| judge(r, obs, &inc2),
+    );
+    inc2.report(ctx, "index-spread");
 }
